@@ -231,7 +231,7 @@ def scalarPrime : Nat → Nat → Except String Recipe
 end
 
 /-- fuel that provably suffices (Props/C04): the recursion depth is at most logarithmic, we give linear + slack -/
-def planFuel (len : Nat) : Nat := 2 * Nat.log2 (len + 1) * 4 + 64
+def planFuel (len : Nat) : Nat := 4 * len + 64
 
 def planScalar (len : Nat) : Except String Recipe := scalarForLen (planFuel len) len
 
